@@ -19,6 +19,9 @@ def run(tier: str) -> int:
     chk = Check("C07", tier)
     scs, n = scenarios(tier, chk, 5000 if tier == "quick" else 60000)
     scns = [{"id": f"m{i}", "lvl": s["lvl"], "bl0": s["bl0"], "variant": i} for i, s in enumerate(scs)]
+    # EXTENSION beyond C07's domain: a measure-fraction package (channel 0); rejections are observations
+    for i, sc in enumerate(scns[: (200 if tier == "quick" else 2000)]):
+        scns.append(dict(sc, id=f"x{i}", ext=True, sig={"m": i % 2, "f1000": [750, 500, 1500][i % 3]}))
     scns += drv.random_scenarios(600 if tier == "quick" else 10000)
     recs = pmap(drv.exec_ojn, scns)
     recs += pmap(drv.exec_bundled, drv.bundled_scenarios(tier), chunk=1)
